@@ -409,14 +409,10 @@ theorem anycbor_rt_of_skip (inner r : Bytes) (h : skip (inner ++ r) = .ok () r) 
 
 theorem typeOf_null (cur : Bytes) : typeOf cur 0xf6 = .ok .null := by
   have : (0xf6 : UInt8).toNat = 0xf6 := rfl
-  simp only [typeOf, this]
-  repeat (first | rw [if_pos (by omega)] | rw [if_neg (by omega)])
-  simp
+  type_of_ifs
 theorem typeOf_undefined (cur : Bytes) : typeOf cur 0xf7 = .ok .undefined := by
   have : (0xf7 : UInt8).toNat = 0xf7 := rfl
-  simp only [typeOf, this]
-  repeat (first | rw [if_pos (by omega)] | rw [if_neg (by omega)])
-  simp
+  type_of_ifs
 
 /-- the side condition `Nullable<T>` needs: an encoding of `T` is never mistaken for null / undefined -/
 def NotNullish {α : Type} (t : Codec α) (wf : α → Prop) : Prop :=
